@@ -45,14 +45,14 @@ class C07(InterpProp):
     rule = ('for each random well-formed chart a twin with sibling-state and transition declaration order shuffled at '
             'every level (rebuilt through add_state/add_transition) is executed in lock-step on the same history; '
             'oracle: identical macro steps (transitions compared by value), effect logs, configurations, contexts and '
-            'error classes; every 4th case is additionally re-run in a sub-process under another PYTHONHASHSEED and '
+            'error classes; every case with a deep history state and every 4th other case is additionally re-run in a sub-process under another PYTHONHASHSEED and '
             'must reproduce the observation byte for byte; non-trivial = a run with a macro step exiting or entering '
             '≥2 sibling states, or firing ≥2 transitions')
 
     def knobs(self, rnd, tier):
         if rnd.random() < 0.4:      # deep histories over orthogonal content: set order of the memory
             return gen.Knobs(contracts=0.0, p_orth=0.7, p_history=0.9, nested_targets=0.7, p_guard=0.15,
-                             max_states=rnd.choice([12, 18, 24]), trans_per_owner=2.5, max_depth=5)
+                             max_states=rnd.choice([12, 18, 24]), trans_per_owner=1.5, max_depth=5, history_focus=0.9)
         return gen.Knobs(contracts=self.with_contracts, p_orth=0.5, nested_targets=0.4,
                          max_states=rnd.choice([8, 14, 20]), trans_per_owner=2.0)
 
@@ -69,8 +69,9 @@ class C07(InterpProp):
             op2 = list(op)
             op2[1] = 1
             ops.append(op2)
+        deep = any(st['kind'] == 'deep' for st in e1.json['states'])
         payload = {'kind': 'interp', 'charts': [e1.json, e2.json], 'ops': ops,
-                   'hashseed': rnd.choice([None] * 3 + [rnd.randint(1, 4000)])}
+                   'hashseed': rnd.randint(1, 4000) if deep else rnd.choice([None] * 3 + [rnd.randint(1, 4000)])}
         return Case(payload, {'charts': [sc, sc2]}, model_ok=e1.supported and e2.supported)
 
     def run_impl(self, case):
@@ -134,6 +135,9 @@ class C07(InterpProp):
                     res.features.add('multi-transition')
                     res.nontrivial = True
                 for m in st['steps']:
+                    if m['transition'] is None and len(m['entered']) >= 2 and m['exited'] and \
+                            oracles.is_hist(scs[0].state_for(m['exited'][0])):
+                        res.features.add('history-restore-multi')
                     for lst in (m['entered'], m['exited']):
                         pars = [scs[0].parent_for(s) for s in lst]
                         if len(pars) != len(set(pars)):
